@@ -140,7 +140,10 @@ func strUniverse(u int) []string {
 // escape, control character, HTML-sensitive, non-ASCII) — used as elements, keys and values
 // by the JSON jobs.
 func jsonStrUniverse(u int) []string {
-	all := []string{"a", "b\"q", "c\\t", "d\ne", "<e&>", "\u00e9f", "g\\", "h\th"}
+	// every class of character that needs care appears within the first four strings: quote and a
+	// backslash that forms a valid escape; newline and a control character with no short escape;
+	// HTML-sensitive characters and DEL; then non-ASCII / non-BMP, the empty string, a trailing backslash
+	all := []string{"a", "b\"q\\t", "c\n\x1fd", "<e&>\x7f", "\u00e9\U0001F600f", "", "g\\", "h\th"}
 	if u > len(all) {
 		u = len(all)
 	}
@@ -151,6 +154,8 @@ func strCmp(name string) func(a, b string) int {
 	switch name {
 	case "rev":
 		return func(a, b string) int { return strings.Compare(b, a) }
+	case "coarsej": // by length: the JSON grammar's keys "1", "2", "a" all tie
+		return func(a, b string) int { return len(a) - len(b) }
 	case "coarse": // by first letter pair: a,b | c,d | e,f
 		cls := func(s string) int {
 			if s == "" {
